@@ -148,7 +148,7 @@ M("e3-return-no-truncate", ["C02", "C05"], VM,
   "        del self.stack[popped_frame.bp :]\n", "",
   [("C02", "C02-R6", "ReturnStatement:residues")])
 M("e3-return-keeps-handlers", ["C07"], VM,
-  "        while (\n            self.exception_handlers\n            and self.exception_handlers[-1][0] >= len(self.call_stack)\n        ):\n            self.exception_handlers.pop()\n", "",
+  "        while self.exception_handlers and self.exception_handlers[-1][0] >= len(\n            self.call_stack\n        ):\n            self.exception_handlers.pop()\n", "",
   [("C07", "C07-R2", "ReturnStatement:handler-stack")])
 M("e3-trystack-shared-again", ["C05", "C07"], CO,
   "        self.loop_stack = []\n        self.try_stack = []\n        self.source_map = {}\n        self._in_function = True\n\n        # Collect all var declarations to know the full locals set\n        local_vars_set = set(self.locals)\n        if isinstance(node.body, BlockStatement):",
